@@ -1211,8 +1211,13 @@ package larking
 //@   ensures [one-out-payload-event-per-message C18] err == nil && s.opts.statsHandler != nil ==> payloadEvents == 1
 //@   ensures [no-event-without-message C18] err != nil ==> payloadEvents == 0
 
-//@ func (*streamWS).SendMsg serves C09 C16 partial pre[protoreflect inv.init inv.keep assert index nil
+//@ func (*streamWS).SendMsg serves C09 C16 C18 partial pre[protoreflect inv.init inv.keep assert index nil post
+//@   returns (err)
 //@   requires s != nil && s.method != nil && AllSingular(s.method.resp) && impl(v, "proto.Message")
+//@   count payloadEvents `sh.HandleRPC(`
+//@   ensures [one-out-payload-event-per-message C18] err == nil && gf(s, "statson") == 1 ==> payloadEvents == 1
+//@   ensures [no-event-without-message C18] err != nil ==> payloadEvents == 0
+//@   witness verifWitnessWSPayloadStats for payload-event
 //@   loop 1 invariant -1 <= rangeindex && rangeindex < len(s.method.resp) && AllSingular(s.method.resp) && cur != nil
 // (maxRecv of a WebSocket stream is the mux's receive limit: serveHTTP, the only
 // function that writes the field, is checked to set it so where it creates the
@@ -1222,7 +1227,7 @@ package larking
 // status 1000, which wsutil.ReadClientData reports as a wsutil.ClosedError; the handler must see
 // that as the clean end of the stream, io.EOF, and every other read failure as an error, C06)
 //@ spec NormalClosure(e) = typeof(e) == typeid("wsutil.ClosedError") && unbox(e, "wsutil.ClosedError").Code == 1000
-//@ func (*streamWS).RecvMsg serves C09 C16 C08 C06 partial pre[protoreflect inv.init inv.keep assert index nil ghost post
+//@ func (*streamWS).RecvMsg serves C09 C16 C08 C06 C18 partial pre[protoreflect inv.init inv.keep assert index nil ghost post
 //@   requires s != nil && s.method != nil && AllSingular(s.method.body) && impl(m, "proto.Message")
 //@   assert atcall `protojson.Unmarshal(` [websocket-receive-limit C08] len(arg0) <= s.maxRecv
 //@   assert at "return err" [a-normal-closure-is-the-end-of-the-stream-not-an-error C06] !NormalClosure(err)
@@ -1231,6 +1236,10 @@ package larking
 //@   returns (err)
 // (assumed: fewer than 2^62 receive calls on one stream, so that the call counter does not wrap)
 //@   requires 0 <= s.recvN && s.recvN < 4611686018427387904
+//@   count payloadEvents `sh.HandleRPC(`
+//@   ensures [one-in-payload-event-per-message C18] err == nil && old(s.method.hasBody) && gf(s, "statson") == 1 ==> payloadEvents == 1
+//@   ensures [no-event-without-message C18] err != nil ==> payloadEvents == 0
+//@   witness verifWitnessWSPayloadStats for payload-event
 //@   ensures [no-phantom-message-without-a-body C06] !old(s.method.hasBody) && old(s.recvN) >= 1 ==> err == io.EOF
 //@   witness verifWitnessWSNoBody for no-phantom-message
 //@   witness verifWitnessWSEndOfStream for a-normal-closure
